@@ -635,11 +635,11 @@ def tasksK1 (jo : JobObj) (o : Option (Job × List Task)) (s1 : Sys) : Sys × Op
 
 theorem syncJobTasks_eqK (s : Sys) (jo : JobObj) (rj : Job) :
     syncJobTasks s jo rj =
-      tasksK1 jo (syncCreateTasks s jo rj (tasksForRefs s rj.status.tasks)).2
-        (syncCreateTasks s jo rj (tasksForRefs s rj.status.tasks)).1 := by
+      tasksK1 jo (syncCreateTasks s jo rj (tasksForRefs s jo rj.status.tasks)).2
+        (syncCreateTasks s jo rj (tasksForRefs s jo rj.status.tasks)).1 := by
   unfold syncJobTasks tasksK1
   simp only
-  generalize syncCreateTasks s jo rj (tasksForRefs s rj.status.tasks) = r1
+  generalize syncCreateTasks s jo rj (tasksForRefs s jo rj.status.tasks) = r1
   obtain ⟨s1, o1⟩ := r1
   cases o1 with
   | none => rfl
@@ -708,10 +708,10 @@ theorem tasksK1_good (jo : JobObj) (o : Option (Job × List Task)) (s : Sys) : G
       (updateTaskRefStatus_good (jobKey jo) rj1 tasks1 s) (tasksK2_good jo tasks1 _ _)
 
 theorem syncJobTasks_good (jo : JobObj) (rj : Job) (s : Sys) : Good (fun t => syncJobTasks t jo rj) s := by
-  refine Good.of_eq (g := fun t => tasksK1 jo (syncCreateTasks t jo rj (tasksForRefs s rj.status.tasks)).2
-      (syncCreateTasks t jo rj (tasksForRefs s rj.status.tasks)).1)
+  refine Good.of_eq (g := fun t => tasksK1 jo (syncCreateTasks t jo rj (tasksForRefs s jo rj.status.tasks)).2
+      (syncCreateTasks t jo rj (tasksForRefs s jo rj.status.tasks)).1)
     (fun q' => syncJobTasks_eqK (setQ s q') jo rj) ?_
-  exact Good.bind (g := fun t => syncCreateTasks t jo rj (tasksForRefs s rj.status.tasks)) (h := tasksK1 jo)
+  exact Good.bind (g := fun t => syncCreateTasks t jo rj (tasksForRefs s jo rj.status.tasks)) (h := tasksK1 jo)
     (syncCreateTasks_good jo rj _ s) (tasksK1_good jo _ _)
 
 /-! ### TTL, finalizer -/
